@@ -323,12 +323,13 @@ private:
 		if(! tempList.empty()) {
 			for(auto it = tempList.begin(); it != tempList.end(); ) {
 				using ArgsTuple = typename PrototypeInfo::ArgsTuple;
-				auto item = it->template get<QueuedItem<ArgsTuple> >();
-
-				if(item.callableIndex != PrototypeInfo::index) {
+				// The prototype must be checked before the item is read as QueuedItem<ArgsTuple>,
+				// the items of the other prototypes are objects of other types.
+				if(it->template get<QueuedItemBase>().callableIndex != PrototypeInfo::index) {
 					++it;
 					continue;
 				}
+				auto item = it->template get<QueuedItem<ArgsTuple> >();
 				if(doInvokeFuncWithQueuedEvent(
 					func,
 					item,
@@ -359,7 +360,15 @@ private:
 			}
 		}
 
-		using NextPrototypeInfo = FindPrototypeByCallableFromIndex<PrototypeInfo::index + 1, PrototypeList, F>;
+		// Continue with the prototypes after PrototypeInfo::index: FindPrototypeByCallableFromIndex<N, ...>
+		// takes the prototypes that remain from position N on, not the whole list.
+		using NextPrototypeInfo = FindPrototypeByCallableFromIndex<
+			PrototypeInfo::index + 1,
+			typename HeterTupleSkip<PrototypeInfo::index + 1, PrototypeList>::Type,
+			F,
+			FindPrototypeDefaultArgTransformer,
+			HeterTupleSize<PrototypeList>::value
+		>;
 		if(doProcessIf<NextPrototypeInfo>(std::forward<F>(func))) {
 			return true;
 		}
